@@ -103,6 +103,15 @@ var permSubsets = [][]string{
 	{"ev", "pr"},
 	{"ev", "pw"},
 	{"ev", "pw", "pr"},
+	// the other permission strings of the protocol (write response, additional authorisation, timed write, hidden) grant
+	// neither read, nor write, nor events: only "pr", "pw" and "ev" do
+	{"wr"},
+	{"pr", "wr"},
+	{"ev", "wr", "pr"},
+	{"aa", "tw", "hd", "wr"},
+	{"hd", "pr"},
+	{"aa", "pr", "ev"},
+	{"tw", "pw"},
 }
 
 const canaryString = "C11-CANARY-c3a9f1"
